@@ -44,7 +44,14 @@ if os.path.exists(rp):
         out.append("| %s | %s | %s | %s |" % (c[0], c[3], c[4][:160], c[5][:230]))
     seed_tbl = "| seeded change | quick check | failing clauses (first) | what the change does |\n|---|---|---|---|\n" + "\n".join(out)
 
-text = prose.replace("{{FIX_TABLE}}", fix_tbl).replace("{{OPEN_TABLE}}", open_tbl).replace("{{SEEDED_TABLE}}", seed_tbl)
+size_rows = []
+for f in sorted(glob.glob(os.path.join(V, "evidence", "C*.json"))):
+    e = json.load(open(f)); c = e["coverage"]
+    size_rows.append("| %s | %s | %s | %s | %s | %s | %s | %s |" % (e["property_id"], e["tier"], c.get("states"), c.get("transitions"),
+                     c.get("traces_validated_against_impl"), c.get("judged_events"), c.get("distinct_nontrivial"), int(e.get("wall_s", 0))))
+size_tbl = ("| id | tier | model states | model transitions | real executions | events judged by TLC | distinct non-trivial | wall s |\n"
+            "|---|---|---|---|---|---|---|---|\n" + "\n".join(size_rows))
+text = prose.replace("{{SIZE_TABLE}}", size_tbl).replace("{{FIX_TABLE}}", fix_tbl).replace("{{OPEN_TABLE}}", open_tbl).replace("{{SEEDED_TABLE}}", seed_tbl)
 text = text.replace("{{NFIX}}", str(len(rows)))
 open(os.path.join(V, "DESIGN.md"), "w").write(head + "\n" + text)
 print("DESIGN.md section 10 regenerated: %d fixes, %d open findings" % (len(rows), len(orow)))
